@@ -15,7 +15,7 @@ RULE = ('workchains whose step registers n<=3 (thorough 4) awaitables (plain fut
         'assertion was evaluated or a failure was delivered')
 RULE += ('; also: completions while paused, registering steps inside if/elif/else/while bodies, one item under two keys, mapping results on re-assigned keys, a registering step that runs another process to completion (nested execute, re-entrant loop policy)')
 ASSUMPTIONS = ['pause/play: the workchain paused while the items complete, then played (finer interleavings are C06)', 'children are processes that wait for the harness (so completion is controlled)']
-REQUIRED = ['barrier_checks', 'ctx_checks', 'failures/exc', 'failures/killed', 'failures/cancel', 'kinds/fut', 'kinds/child', 'kinds/oldchild', 'how/ret', 'how/call', 'terminated_before_registration', 'failure_while_paused', 'nested_runs', 'nested_barrier_checks', 'nested_registered_before_inner_run', 'unprintable_failures', 'uncopyable_results']
+REQUIRED = ['barrier_checks', 'ctx_checks', 'failures/exc', 'failures/killed', 'failures/cancel', 'kinds/fut', 'kinds/child', 'kinds/oldchild', 'how/ret', 'how/call', 'terminated_before_registration', 'failure_while_paused', 'nested_runs', 'nested_barrier_checks', 'nested_registered_before_inner_run', 'unprintable_failures', 'uncopyable_results', 'failure_callback_races']
 BOUNDS = {'quick': 'n<=3 awaitables, all completion orders, placements sampled on a grid', 'thorough': 'n<=4, all placements'}
 
 
@@ -128,10 +128,22 @@ def gen_cases(tier, seed):
                 for s0 in rng.sample(range(1, nslots + 1), min(3, nslots)):
                     plan = [{'at': s0, 'act': list(perm[0])}, {'at': s0, 'act': ['pause', 'ps']}] + [{'at': 'q', 'act': list(a)} for a in perm[1:]]
                     paused_cases.append({'name': name, 'program': prog, 'plan': plan, 'drain': True, 'listener': False})
+        # an awaited item fails and, in the same loop iteration, a callback scheduled on the work chain raises (both orders): whichever
+        # failure wins, the chain ends EXCEPTED and stepping it returns normally
+        race_cases = []
+        for (idx, kind) in items:
+            fail_act = ['complete', idx, ['exc', 'e%d' % idx]] if kind == 'fut' else ['child', idx, 'fail']
+            for s0 in range(1, nslots + 1):
+                for order in (0, 1):
+                    pair = [{'at': s0, 'act': fail_act}, {'at': s0, 'act': ['soon_raise', 'cb-fails']}]
+                    race_cases.append({'name': name, 'program': prog, 'plan': pair if order == 0 else pair[::-1], 'drain': True, 'listener': False, 'race': True})
+        if len(race_cases) > 40:
+            race_cases = rng.sample(race_cases, 40)
+        paused_cases += race_cases
         if len(cases) > cap:
             cases = rng.sample(cases, cap)
-        if len(paused_cases) > cap // 3:
-            paused_cases = rng.sample(paused_cases, cap // 3)
+        if len(paused_cases) > cap // 3 + 40:
+            paused_cases = rng.sample(paused_cases, cap // 3 + 40)
         cases += paused_cases
         for case in cases:
             yield case
@@ -180,6 +192,7 @@ def run_case(case):
         if e[0] == 'trace' and e[1] == 'enter' and e[2] > 0:
             obs['barrier_checks'] += len(e[6])
             obs['ctx_checks'] += len(e[5])
+    obs['failure_callback_races'] = int(bool(case.get('race')))
     paused_at_completion = any(a['kind'] in ('complete', 'child') and a.get('paused_before') for a in rec['acts'])
     for c in rec['extra']['completions']:
         if c[1][0] in ('exc', 'cancel', 'killed') and paused_at_completion:
